@@ -1,6 +1,7 @@
+\* (fixed in /repo by 7be568a: the switch is TRUE again; kept for regression)
 \* C18 family (quick), AS-BUILT: a list-valued attribute of an array inside an array of components is indexed with
 \* the whole index tuple (TypeError).  No invariant listed: PROG lines carry modelraises; the harness replays.
-CONSTANTS Tier = "quick" NestedAttrByOwnDims = FALSE
+CONSTANTS Tier = "quick" NestedAttrByOwnDims = TRUE
 INIT Init
 NEXT Next
 INVARIANT NamesAgree
